@@ -204,7 +204,10 @@ def c08_queries(tier):
 
 def c17_queries(tier):
     regs = [probe_c17(), probe_abstract_adjacent(), probe_diamond(), probe_arity3(), probe_next()] + family(tier, shapes=(2, 2, 3, 1, 5), per=1 if tier == 'quick' else 3, max_defs=4)
-    return [_q('C17', r, 'report_' + tag(r, i), {'CHECK_REPORT': 1}, unwind=130, symbolic='abstract / concrete flag of every class; argument classes')
+    def unw(r):
+        # the report oracle enumerates NC^arity class tuples per method
+        return max([130] + [len(r.direct) ** SHAPE_AR[s] + 2 for s, _ in r.methods])
+    return [_q('C17', r, 'report_' + tag(r, i), {'CHECK_REPORT': 1}, unwind=unw(r), symbolic='abstract / concrete flag of every class; argument classes')
             for i, r in enumerate(regs)]
 
 
